@@ -457,6 +457,31 @@ def direction(run, f, det):
                     "successor == target => return true", loc=loc_of(hb, eq_true))
         run.require(bool(no) and all(v == 0 for _, v in no), "O14.9", "walk-otherwise-false", "has_path can answer %s without having found the target (chain ended / bound exhausted)" % sorted({v for _, v in no}),
                     "every other exit of the walk returns false")
+        # ... and `false` is answered only when the chain ended (lookup found nothing) or the step bound is exhausted: any
+        # other data-dependent way to stop the walk early (a lossy visited set, a hash collision, a depth cut-off) misses cycles
+        early = []
+        for bb, v in no:
+            guards_ = []
+            for blk in hb.blocks:
+                if blk.term["k"] != "switch" or blk.idx not in hcfg.live:
+                    continue
+                for val, tgt in list(blk.term["arms"]) + [["o", blk.term["otherwise"]]]:
+                    if tgt == bb or hcfg.dominates(tgt, bb):
+                        # a real guard: the other arms do not all lead here
+                        guards_.append((blk.idx, tgt))
+            inner = None
+            for g in guards_:
+                if inner is None or hcfg.dominates(inner[1], g[1]):
+                    inner = g
+            if inner is None:
+                continue
+            subj = strip_wrappers(htr.norm(htr.operand(hb.blocks[inner[0]].term["discr"])))
+            src = strip_wrappers(subj[1]) if subj[0] == "discr" else subj
+            ok_src = src[0] == "call" and (deadlock.is_map_method(f, hb.blocks[src[1]], "get") or src[2].endswith("Iterator::next"))
+            if not ok_src:
+                early.append((loc_of(hb, bb), show(subj)[:80]))
+        run.require(not early, "O14.9", "walk-stops-only-at-chain-end-or-bound", "has_path answers false on a condition other than 'the chain ended' / 'the step bound is exhausted': %s" % early,
+                    "false only when the lookup finds no successor or the step bound is exhausted")
     # O14.7 (necessary condition on the walk's step bound): in a functional graph with n edges a
     # path can have n hops, so a bounded walk must allow at least `graph.len()` steps
     bound_ok = None
